@@ -2,7 +2,7 @@
 # usage: tools/seed_all.sh [parallelism]   -- evaluates every kept seed against its property's quick check
 # (scratch worktrees, scratch evidence); prints one line per seed: CAUGHT / MISSED / other.
 cd /verif
-ls seeded | xargs -P ${1:-4} -I{} bash -c '
+ls -d seeded/*/ | xargs -n1 basename | xargs -P ${1:-4} -I{} bash -c '
   pid=$(python3 -c "import json;print(json.load(open(\"/verif/seeded/{}/meta.json\"))[\"property\"])")
   out=$(LINES_MAX=400 tools/seed_eval.sh {} $pid 2>&1)
   if echo "$out" | grep -q "^VIOLATION property=$pid"; then echo "CAUGHT {} ($pid)";
